@@ -32,8 +32,11 @@ def check(run):
                 "several spellings incl. translucent ones; distinct = distinct (text, background) values; non-trivial = "
                 "0 < alpha < 1")
     cases = []
-    for _ in range(n):
+    for i in range(n):
         f, b = rand_rgb(run.rng), rand_rgb(run.rng)
+        if i % 12 == 0:
+            # channels that are all 0 or 1: where "is this normalised?" heuristics misfire
+            f = tuple(run.rng.choice([0, 1, 1, 2, 255]) for _ in range(3))
         a = run.rng.choice(ALPHAS) if run.rng.random() < 0.5 else ("%." + str(run.rng.choice([1, 2, 3, 6])) + "f") % run.rng.random()
         af = Fraction(a)
         k = run.rng.random()
@@ -111,6 +114,32 @@ def check(run):
         enc = ("t:%d,%d,%d" % tuple(out) if isinstance(out, tuple) else "s:" + out.encode().hex()) + (" 1" if ok else " 0")
         if enc != m:
             run.diverge("make_readable==Cm.ColorPair.makeReadable", {"text": repr(text), "bg": repr(bgv)}, enc, m)
+    # CSS Color 4 space/slash spellings: not required to be accepted, but if they are, the alpha must be honoured
+    for _ in range(200 if q else 4000):
+        f, b = rand_rgb(run.rng), rand_rgb(run.rng)
+        a = run.rng.choice(["0.3", "0.5", "0.75", "0.1"])
+        hs = hsl_string(f)
+        forms = ["rgba(%d %d %d / %s)" % (f + (a,)), "rgb(%d %d %d / %s)" % (f + (a,))]
+        if hs:
+            inner = hs[4:-1].replace(",", "")
+            # only the spellings the property names (rgba()/hsla()); `hsl(h s% l% / a)` is CSS Color 4 syntax outside
+            # the stated domain (observation: the library accepts it and ignores the alpha)
+            forms += ["hsla(%s / %s)" % (inner, a)]
+        text = run.rng.choice(forms)
+        try:
+            p = ColorPair(text, b)
+            ok = p.is_valid
+        except Exception as e:  # noqa
+            run.violation("ColorPair raised on a CSS Color 4 translucent spelling", {"text": repr(text), "bg": repr(b)}, got=repr(e)); continue
+        run.count(("css4", text, b), ok)
+        run.hit("css4.%s" % ("accepted" if ok else "rejected"))
+        if ok:
+            af = Fraction(a)
+            fg = [Fraction(x) for x in f]
+            blend = [af * x + (1 - af) * y for x, y in zip(fg, b)]
+            if max(abs(Fraction(x) - y) for x, y in zip(p.text.rgb, blend)) > Fraction(5, 2):
+                run.violation("a translucent spelling is accepted but its alpha is not honoured (not composited over the pair's background)",
+                              {"text": repr(text), "bg": repr(b)}, got=tuple(p.text.rgb), exact=[float(x) for x in blend])
     # translucent background: composited over white
     for _ in range(300 if q else 5000):
         f = rand_rgb(run.rng); a = run.rng.choice(ALPHAS)
